@@ -70,7 +70,7 @@ def qKey (c : Ctx) (co : Option Meta) (k : Str) : Str :=
 /-- generic scalar handling at the end of redactPipelineStage's loop body -/
 def genericScalar (c : Ctx) (S : Bool) (nkp : List Str) (v : J) : J :=
   match v with
-  | .str s => if dollarPrefixed s && !c.rfn then v else c.scalar nkp v S false
+  | .str s => if dollarPrefixed s then c.dollarString s else c.scalar nkp v S false
   | _ => c.scalar nkp v S false
 
 def allStrings (xs : List J) : Bool := xs.all fun x => match x with | .str _ => true | _ => false
@@ -150,7 +150,12 @@ def subValScalar (c : Ctx) (S : Bool) (k : Str) (nkp : List Str) (sk : Str) (sm 
     (match v with
      | .str _ => v
      | _ => c.scalar (nkp ++ [sk]) v S false)
-  | _ => c.scalar (nkp ++ [sk]) v S false
+  | _ =>
+    (match v with
+     | .str s =>
+       if dollarPrefixed s && c.rfn && (lookup s c.T.core).isNone then .str (c.H s)
+       else c.scalar (nkp ++ [sk]) v S false
+     | _ => c.scalar (nkp ++ [sk]) v S false)
 
 def aElemScalar (c : Ctx) (S : Bool) (pk : Str) (sel : Bool) (kp : List Str) (v : J) : J :=
   match v with
